@@ -379,6 +379,7 @@ def run_service_case(backend, case):
       ms.safety_config.safety_threshold = 0.0
   study = svc.create_study(sv, spec=spec)
   names = []
+  declared_infeasible = []
   for i, o in enumerate(case['ops']):
     k = o['kind']
     if k == 'created-succeeded':
@@ -400,8 +401,16 @@ def run_service_case(backend, case):
     elif k == 'lifecycle-autoselect':
       sv.CompleteTrial(vsp.CompleteTrialRequest(name=t.name))
     elif k == 'lifecycle-infeasible':
-      sv.CompleteTrial(vsp.CompleteTrialRequest(name=t.name, trial_infeasible=True, infeasible_reason='x',
-                                                final_measurement=measurement_proto(o['final'])))
+      declared_infeasible.append(int(t.id))
+      if i % 2 == 0:
+        sv.CompleteTrial(vsp.CompleteTrialRequest(name=t.name, trial_infeasible=True, infeasible_reason='x',
+                                                  final_measurement=measurement_proto(o['final'])))
+      else:
+        # the way a worker does it: through the client library, with a reason text that may be empty
+        from vizier import pyvizier as vz
+        wcl = vizier_client.VizierClient(study_resource_name=study.name, client_id='w%d' % i, service=sv)
+        meas = vz.Measurement(metrics={m: v for m, v in o['final']}) if o['final'] else None
+        clients.Trial(wcl, int(t.id)).complete(meas, infeasible_reason='' if i % 4 == 1 else 'diverged')
   for i in case['deletes']:
     sv.DeleteTrial(vsp.DeleteTrialRequest(name=names[i]))
   stored = []
@@ -413,6 +422,7 @@ def run_service_case(backend, case):
   st = clients.Study(cl)
   via_client = [t.id for t in st.optimal_trials().get()]
   via_client2 = [t.id for t in st.optimal_trials()]
+  run_service_case.declared_infeasible = [i for i in declared_infeasible]
   return stored, got, via_client, via_client2
 
 
@@ -449,6 +459,11 @@ def service_stage(c, V, n, backends):
     for be in backends:
       stored, got, cl1, cl2 = run_service_case(be, case)
       c.traces += 1
+      bad = sorted(set(run_service_case.declared_infeasible) & set(got))
+      if bad:
+        c.prop_fail('infeasible-trial-reported-optimal',
+                    'trial(s) %s were completed as INFEASIBLE by their worker (through the service or through the client library, with an empty or non-empty reason) and are reported by ListOptimalTrials (%s): %s' % (bad, be, got),
+                    {'backend': be, 'history': canon_case(case), 'declared_infeasible': run_service_case.declared_infeasible, 'stored': canon_case(stored), 'real': got})
       runs.append((case, be, stored, got, cl1, cl2))
       reqs.append(service_request(case, stored, V.svc_skip_nan))
   models = c.lean('C11', reqs)
